@@ -493,9 +493,71 @@ def run_backend_ops(case, drv):
     return ok(nontrivial=True, **tags)
 
 
+# ----------------------------------------------------------------------------- sampling engines with a history
+def gen_samp_hist(rng, tier):
+    case = gen.rand_bn(rng, nmin=3, nmax=5, maxcard=3, name_kind="str", label_kind=rng.choice(["int", "str", "permint"]), mincard=2, positive=True,
+                       shape=rng.choice(["collider", "family", "gnp_dense", "diamond"]))
+    n = len(case["nodes"])
+    ops = []
+    for _ in range(rng.randint(2, 4)):
+        api = rng.choice(["forward", "rejection", "lw", "lw", "gibbs", "gibbs_gen"])
+        op = {"api": api, "size": rng.choice([2, 5, 12]), "seed": rng.choice([0, 3, rng.randrange(10 ** 6)])}
+        if api in ("rejection", "lw"):
+            v = rng.randrange(n)
+            op["ev"] = [[v, rng.randrange(case["card"][v])]]
+        ops.append(op)
+    case["ops"] = ops
+    return case
+
+
+def run_samp_hist(case, drv):
+    """a sampling engine that has answered other questions gives, for the same seed, exactly the answer of a fresh engine; and the
+    start state handed to a Gibbs sampler is the caller's, before and after"""
+    from pgmpy.sampling import BayesianModelSampling, GibbsSampling
+    from pgmpy.factors.discrete import State
+    names, labels = case["nodes"], case["labels"]
+    pn = [gen.lab(x) for x in names]
+    n = len(names)
+    bn = gen.bn_to_pgmpy(case)
+    shared_bms, shared_gibbs = BayesianModelSampling(bn), GibbsSampling(bn)
+    start = [State(v, 0) for v in shared_gibbs.variables]          # one list object, in the sampler's own order, reused by every call
+    start0 = list(start)
+
+    def frame(df):
+        cols = sorted(df.columns, key=str)
+        return [[str(x) for x in df[c].values] for c in cols], [str(c) for c in cols]
+
+    def ask(bms, gibbs, op, st):
+        ev = [State(pn[v], gen.lab(labels[v][s_])) for v, s_ in op.get("ev", [])]
+        if op["api"] == "forward":
+            return frame(bms.forward_sample(size=op["size"], seed=op["seed"], show_progress=False))
+        if op["api"] == "rejection":
+            return frame(bms.rejection_sample(evidence=ev, size=op["size"], seed=op["seed"], show_progress=False))
+        if op["api"] == "lw":
+            return frame(bms.likelihood_weighted_sample(evidence=ev, size=op["size"], seed=op["seed"], show_progress=False))
+        if op["api"] == "gibbs":
+            return frame(gibbs.sample(start_state=st, size=op["size"], seed=op["seed"]))
+        rows = [sorted((str(s_.var), str(s_.state)) for s_ in state) for state in gibbs.generate_sample(start_state=st, size=op["size"], seed=op["seed"])]
+        return rows, []
+    for i, op in enumerate(case["ops"]):
+        tags = dict(api=op["api"], step=i)
+        try:
+            got = ask(shared_bms, shared_gibbs, op, start)
+            ref = ask(BayesianModelSampling(gen.bn_to_pgmpy(case)), GibbsSampling(gen.bn_to_pgmpy(case)), op, list(start0))
+        except Exception as e:
+            return fail(f"step {i} {op['api']} raised {type(e).__name__}: {e}", **tags)
+        if start != start0:
+            return fail(f"step {i} {op['api']}: the caller's start_state list was modified: {start0} -> {start}", **tags)
+        if got != ref:
+            return fail(f"step {i} {op['api']}(seed={op['seed']}, size={op['size']}): the engine with a history ({[o['api'] for o in case['ops'][:i]]}) "
+                        f"and a fresh engine give different samples for the same seed", **tags)
+    return ok(nontrivial=True, nops=len(case["ops"]))
+
+
 STREAMS = [
     Stream("purity", gen_purity, run_purity, quick=250, thorough=2500),
     Stream("engine_history", gen_history, run_history, quick=500, thorough=5000),
     Stream("metamorphic", gen_meta, run_meta, quick=700, thorough=8000),
     Stream("backend_ops", gen_backend_ops, run_backend_ops, quick=500, thorough=5000),
+    Stream("sampler_history", gen_samp_hist, run_samp_hist, quick=150, thorough=1500),
 ]
